@@ -17,7 +17,7 @@ ID = "C20"
 LEVEL = "fault_enumeration"
 TIERS = {
     "quick": {"segments": 208, "wall": 120, "min_budget": 60},
-    "thorough": {"segments": 16000, "wall": 1500, "min_budget": 300},
+    "thorough": {"segments": 3200, "wall": 1500, "min_budget": 300},
 }
 SEGMENT_TIMEOUT = 600
 SAMPLE_MAXOPS = 10
@@ -27,6 +27,7 @@ RULE = (
     "statement, one injected fault at every applicable position (exhaustive per spec) plus sampled pairs and benign "
     "controls; non-trivial+distinct = distinct (spec digest, fault class, variant, position, route) tuples judged"
 )
+STATE_MEASURE = "abstract state per judged build = (fault class, variant, route, outcome)"
 ASSUMPTIONS = [
     "'one of pyhf's own exception types' = an instance of a class defined in module pyhf.exceptions",
     "a fault injected into an accepted valid spec at the listed positions is a structural inconsistency in the sense of the statement; benign look-alikes are injected as controls and must be accepted",
